@@ -174,6 +174,7 @@ public:
 
 		std::lock_guard<Mutex> lockGuard(mutex);
 
+		node->counter = getNextCounter();
 		doAppend(node);
 
 		return Handle(node);
@@ -185,6 +186,7 @@ public:
 
 		std::lock_guard<Mutex> lockGuard(mutex);
 
+		node->counter = getNextCounter();
 		if(head) {
 			node->next = head;
 			head->previous = node;
@@ -209,6 +211,7 @@ public:
 
 			std::lock_guard<Mutex> lockGuard(mutex);
 
+			node->counter = getNextCounter();
 			// `before` may have been removed already while its node is still alive,
 			// either kept by a running invocation or removed by another thread just now.
 			// Then it's no longer in the list, so append at the back.
@@ -299,12 +302,13 @@ public:
 	{
 		NodePtr node;
 
+		Counter counter;
+
 		{
 			std::lock_guard<Mutex> lockGuard(mutex);
 			node = head;
+			counter = currentCounter.load(std::memory_order_acquire);
 		}
-
-		const Counter counter = currentCounter.load(std::memory_order_acquire);
 
 		while(node) {
 			if(node->counter != removedCounter && counter >= node->counter) {
@@ -328,12 +332,13 @@ private:
 	{
 		NodePtr node;
 
+		Counter counter;
+
 		{
 			std::lock_guard<Mutex> lockGuard(mutex);
 			node = head;
+			counter = currentCounter.load(std::memory_order_acquire);
 		}
-
-		const Counter counter = currentCounter.load(std::memory_order_acquire);
 
 		while(node) {
 			if(node->counter != removedCounter && counter >= node->counter) {
@@ -394,7 +399,8 @@ private:
 	
 	NodePtr doAllocateNode(const Callback & callback)
 	{
-		return std::make_shared<Node>(callback, getNextCounter());
+		// The generation counter is drawn in doLinkNewNode, under the mutex, when the node is linked into the list.
+		return std::make_shared<Node>(callback, removedCounter);
 	}
 	
 	void doFreeNode(NodePtr & node)
@@ -434,17 +440,17 @@ private:
 		node.reset();
 	}
 
+	// The caller must hold the mutex (or own the list exclusively, as cloneFrom in a constructor does):
+	// the counter is drawn when a node is linked, and a traversal takes its snapshot of the counter under the same mutex,
+	// so no thread can see the counter, or the nodes, in the middle of the renumbering below.
 	Counter getNextCounter()
 	{
 		Counter result = ++currentCounter;;
 		if(result == 0) { // overflow, let's reset all nodes' counters.
-			{
-				std::lock_guard<Mutex> lockGuard(mutex);
-				NodePtr node = head;
-				while(node) {
-					node->counter = 1;
-					node = node->next;
-				}
+			NodePtr node = head;
+			while(node) {
+				node->counter = 1;
+				node = node->next;
 			}
 			result = ++currentCounter;
 		}
